@@ -431,12 +431,12 @@ Definition step (V : variant) (s : state) (o : op) : state * res unit :=
       if st_locked s then (s, Err) else putKVs V s items user conds replace
   | OpDelete key => lift (deleteData V s key)
   | OpMetaPost kind val =>
-      if st_locked s then (s, Err)
+      if st_locked s || (3 <=? kind) then (s, Err)     (* three metadata endpoints: kinds 0, 1, 2 *)
       else (mkSt (st_mem s) (mset kind val (st_mmeta s))
                  (mkVS (s_data (st_head s)) (mset kind val (s_meta (st_head s))))
                  (st_parents s) (st_locked s), Ok tt)
   | OpMetaDelete kind =>
-      if st_locked s then (s, Err)
+      if st_locked s || (3 <=? kind) then (s, Err)
       else (mkSt (st_mem s) (mdel kind (st_mmeta s))
                  (mkVS (s_data (st_head s)) (mdel kind (s_meta (st_head s))))
                  (st_parents s) (st_locked s), Ok tt)
@@ -773,7 +773,7 @@ Definition read_mem (V : variant) (m : memdb) (mm : list (N * bytes)) (r : rreq)
               if onlyid then XIds (map fst l) else XObjs (map (fun p => selectFields (snd p) fm sh) l))
         end
       end
-  | RMeta kind => XBytes (mget kind mm)
+  | RMeta kind => if 3 <=? kind then XErr else XBytes (mget kind mm)
   end.
 
 (* --- the store path --- *)
@@ -813,7 +813,7 @@ Definition read_store (V : variant) (st : vstore) (r : rreq) : rres :=
               if onlyid then XIds (map fst l) else XObjs (map (fun p => store_sel V (snd p) fm sh) l))
         end
       end
-  | RMeta kind => XBytes (mget kind (s_meta st))
+  | RMeta kind => if 3 <=? kind then XErr else XBytes (mget kind (s_meta st))
   end.
 
 (* getMemDBbyVersion + ctx.Head(): version 0 is the head of master, n > 0 its n-th ancestor *)
@@ -828,3 +828,19 @@ Definition read_version (V : variant) (s : state) (ver : nat) (r : rreq) : optio
   end.
 
 End Query.
+
+(* ---------- "the same answer": Go maps and the lists built from them carry no order ----------
+   (the head lists keys in numeric order, the store in the string order of the decimal keys:
+   documented at GetKeysInRange) *)
+From Coq Require Import Permutation.
+Inductive rres_equiv : rres -> rres -> Prop :=
+| EqObj o : rres_equiv (XObj o) (XObj o)
+| EqIds a b : Permutation a b -> rres_equiv (XIds a) (XIds b)
+| EqObjs a b : Permutation a b -> rres_equiv (XObjs a) (XObjs b)
+| EqNames a b : Permutation a b -> rres_equiv (XNames a) (XNames b)
+| EqCounts a b : (forall f, @aget bytes Z bytes_eqb f a = @aget bytes Z bytes_eqb f b) ->
+                 rres_equiv (XCounts a) (XCounts b)       (* the same map field -> count *)
+| EqKVs a b : Permutation a b -> rres_equiv (XKVs a) (XKVs b)
+| EqBytes o : rres_equiv (XBytes o) (XBytes o)
+| EqErr : rres_equiv XErr XErr
+| EqPanic : rres_equiv XPanic XPanic.
